@@ -47,6 +47,9 @@ type Scen struct {
 	// Stall: schedules are enumerated by persistent delays (qsched.Demote): a delayed goroutine
 	// stays behind all others, so one departure stalls it while its siblings run on
 	Stall bool `json:"stall,omitempty"`
+	// CopyLocks: besides request arrivals, schedules also branch at every mutex acquisition made by
+	// the copy's own bookkeeping (functions of the root package: the seen-map, the final-function list)
+	CopyLocks bool `json:"copy_locks,omitempty"`
 }
 
 func (s Scen) String() string {
@@ -62,6 +65,9 @@ func (s Scen) String() string {
 	}
 	if s.Stall {
 		d += " stalls"
+	}
+	if s.CopyLocks {
+		d += " copy-locks"
 	}
 	return fmt.Sprintf("%s %s opt=%s feat=%s pre=%s%s", s.Graph, s.Pair, s.Opt, s.Feat, s.Pre, d)
 }
